@@ -387,6 +387,10 @@ impl<'a> Runtime<'a> {
                         span: err.span,
                         message: ArenaCow::Borrowed("Index value don pass array length"),
                     }],
+                    RuntimeErrorKind::TypeMismatch if err.name.is_empty() => vec![Label {
+                        span: err.span,
+                        message: ArenaCow::Borrowed("Dis value type no fit dis operation"),
+                    }],
                     RuntimeErrorKind::TypeMismatch => vec![Label {
                         span: err.span,
                         message: ArenaCow::Owned(arena_format!(
@@ -476,9 +480,10 @@ impl<'a> Runtime<'a> {
                 let is_truthy = match val {
                     Value::Bool(b) => b,
                     Value::Null => false, // null is falsy
-                    _ => unreachable!(
-                        "Semantic analysis guarantees only boolean expressions in conditions"
-                    ),
+                    // A dynamically typed condition is only known at run time
+                    _ => {
+                        return Err(RuntimeError::new(RuntimeErrorKind::TypeMismatch, cond.span()));
+                    }
                 };
                 if is_truthy {
                     self.exec_block_with_flow(then_b)
@@ -494,9 +499,12 @@ impl<'a> Runtime<'a> {
                     let should_continue = match val {
                         Value::Bool(b) => b,
                         Value::Null => false,
-                        _ => unreachable!(
-                            "Semantic analysis guarantees only boolean expressions in loop conditions"
-                        ),
+                        _ => {
+                            return Err(RuntimeError::new(
+                                RuntimeErrorKind::TypeMismatch,
+                                cond.span(),
+                            ));
+                        }
                     };
                     if !should_continue {
                         break;
@@ -652,11 +660,14 @@ impl<'a> Runtime<'a> {
                     if matches!(l, Value::Bool(false) | Value::Null) {
                         return Ok(Value::Bool(false)); // Short-circuit evaluation
                     }
+                    if !matches!(l, Value::Bool(true)) {
+                        return Err(RuntimeError::new(RuntimeErrorKind::TypeMismatch, *span));
+                    }
                     let r = self.eval_expr(rhs)?;
                     match r {
                         Value::Bool(b) => Ok(Value::Bool(b)),
                         Value::Null => Ok(Value::Bool(false)),
-                        _ => unreachable!("Semantic analysis guarantees boolean expressions"),
+                        _ => Err(RuntimeError::new(RuntimeErrorKind::TypeMismatch, *span)),
                     }
                 }
                 BinaryOp::Or => {
@@ -664,11 +675,14 @@ impl<'a> Runtime<'a> {
                     if let Value::Bool(true) = l {
                         return Ok(Value::Bool(true)); // Short-circuit evaluation
                     }
+                    if !matches!(l, Value::Bool(false) | Value::Null) {
+                        return Err(RuntimeError::new(RuntimeErrorKind::TypeMismatch, *span));
+                    }
                     let r = self.eval_expr(rhs)?;
                     match r {
                         Value::Bool(b) => Ok(Value::Bool(b)),
                         Value::Null => Ok(Value::Bool(false)),
-                        _ => unreachable!("Semantic analysis guarantees boolean expressions"),
+                        _ => Err(RuntimeError::new(RuntimeErrorKind::TypeMismatch, *span)),
                     }
                 }
                 _ => {
@@ -690,7 +704,7 @@ impl<'a> Runtime<'a> {
                             BinaryOp::Eq => Ok(Value::Bool((lv - rv).abs() <= FLOAT_EQ_EPS)),
                             BinaryOp::Gt => Ok(Value::Bool(lv > rv)),
                             BinaryOp::Lt => Ok(Value::Bool(lv < rv)),
-                            _ => unreachable!("Semantic analysis guarantees valid number ops"),
+                            _ => Err(RuntimeError::new(RuntimeErrorKind::TypeMismatch, *span)),
                         },
                         (Value::Str(ls), Value::Str(rs)) => match op {
                             BinaryOp::Add => {
@@ -703,10 +717,15 @@ impl<'a> Runtime<'a> {
                             BinaryOp::Eq => Ok(Value::Bool(ls == rs)),
                             BinaryOp::Gt => Ok(Value::Bool(ls > rs)),
                             BinaryOp::Lt => Ok(Value::Bool(ls < rs)),
-                            _ => unreachable!("Semantic analysis guarantees valid string ops"),
+                            _ => Err(RuntimeError::new(RuntimeErrorKind::TypeMismatch, *span)),
                         },
                         (Value::Str(ls), Value::Number(n)) => {
-                            assert!(matches!(op, BinaryOp::Add));
+                            if !matches!(op, BinaryOp::Add) {
+                                return Err(RuntimeError::new(
+                                    RuntimeErrorKind::TypeMismatch,
+                                    *span,
+                                ));
+                            }
                             let mut writer = LenWriter(0);
                             write!(writer, "{n}").unwrap();
                             let mut s =
@@ -716,7 +735,12 @@ impl<'a> Runtime<'a> {
                             Ok(Value::Str(ArenaCow::Owned(s)))
                         }
                         (Value::Number(n), Value::Str(rs)) => {
-                            assert!(matches!(op, BinaryOp::Add));
+                            if !matches!(op, BinaryOp::Add) {
+                                return Err(RuntimeError::new(
+                                    RuntimeErrorKind::TypeMismatch,
+                                    *span,
+                                ));
+                            }
                             let mut writer = LenWriter(0);
                             write!(writer, "{n}").unwrap();
                             let mut s =
@@ -729,31 +753,29 @@ impl<'a> Runtime<'a> {
                             BinaryOp::Eq => Ok(Value::Bool(lv == rv)),
                             BinaryOp::Gt => Ok(Value::Bool(lv && !rv)), // false < true
                             BinaryOp::Lt => Ok(Value::Bool(!lv & rv)),
-                            _ => unreachable!("Semantic analysis guarantees valid bool ops"),
+                            _ => Err(RuntimeError::new(RuntimeErrorKind::TypeMismatch, *span)),
                         },
                         (Value::Null, Value::Null) => match op {
                             BinaryOp::Eq => Ok(Value::Bool(true)),
                             BinaryOp::Gt | BinaryOp::Lt => Ok(Value::Bool(false)),
-                            _ => unreachable!("Semantic analysis guarantees valid null ops"),
+                            _ => Err(RuntimeError::new(RuntimeErrorKind::TypeMismatch, *span)),
                         },
                         (Value::Null, ..) | (.., Value::Null) => match op {
                             BinaryOp::Eq | BinaryOp::Gt | BinaryOp::Lt => Ok(Value::Bool(false)),
-                            _ => unreachable!("Semantic analysis guarantees valid null ops"),
+                            _ => Err(RuntimeError::new(RuntimeErrorKind::TypeMismatch, *span)),
                         },
-                        _ => {
-                            unreachable!("Semantic analysis guarantees matching operand types")
-                        }
+                        _ => Err(RuntimeError::new(RuntimeErrorKind::TypeMismatch, *span)),
                     }
                 }
             },
 
-            Expr::Unary { op, expr, .. } => {
+            Expr::Unary { op, expr, span } => {
                 let v = self.eval_expr(expr)?;
                 match (op, v) {
                     (UnaryOp::Not, Value::Bool(b)) => Ok(Value::Bool(!b)),
                     (UnaryOp::Not, Value::Null) => Ok(Value::Bool(true)),
                     (UnaryOp::Minus, Value::Number(n)) => Ok(Value::Number(-n)),
-                    _ => unreachable!("Semantic analysis guarantees valid unary expressions"),
+                    _ => Err(RuntimeError::new(RuntimeErrorKind::TypeMismatch, *span)),
                 }
             }
             Expr::Array { elements, .. } => {
@@ -768,7 +790,7 @@ impl<'a> Runtime<'a> {
                 let array_value = self.eval_expr(array)?;
                 let index_value = self.eval_expr(index)?;
                 let Value::Array(mut items) = array_value else {
-                    unreachable!("Semantic analysis guarantees only arrays can be indexed")
+                    return Err(RuntimeError::new(RuntimeErrorKind::TypeMismatch, array.span()));
                 };
 
                 let Value::Number(index_number) = index_value else {
@@ -939,7 +961,7 @@ impl<'a> Runtime<'a> {
             }
             GlobalBuiltin::Command => {
                 let Value::Str(program) = &arg_values[0] else {
-                    unreachable!("Semantic analysis guarantees string arg")
+                    return Err(RuntimeError::new(RuntimeErrorKind::TypeMismatch, span));
                 };
                 Ok(Value::Host(HostHandle::new_in(
                     self.frame,
@@ -1023,8 +1045,7 @@ impl<'a> Runtime<'a> {
                     )),
                 },
             },
-            Value::Bool(..) => unimplemented!("Boolean methods not implemented yet"),
-            Value::Null => Err(RuntimeError::new_with_extras(
+            Value::Bool(..) | Value::Null => Err(RuntimeError::new_with_extras(
                 RuntimeErrorKind::TypeMismatch,
                 span,
                 field,
@@ -1172,7 +1193,10 @@ impl<'a> Runtime<'a> {
             ArrayBuiltin::Join => {
                 let sep = self.eval_expr(args.args[0])?;
                 let Value::Str(sep) = sep else {
-                    unreachable!("Semantic analysis guarantees string arg")
+                    return Err(RuntimeError::new(
+                        RuntimeErrorKind::TypeMismatch,
+                        args.args[0].span(),
+                    ));
                 };
                 let result = ArrayBuiltin::join(array, &sep, self.frame);
                 Ok(Value::Str(ArenaCow::Owned(result)))
@@ -1244,7 +1268,10 @@ impl<'a> Runtime<'a> {
                         let s = StringBuiltin::slice(s, start, end, self.frame);
                         Ok(Value::Str(ArenaCow::Owned(s)))
                     }
-                    _ => unreachable!("Semantic analysis guarantees number args"),
+                    _ => Err(RuntimeError::new(
+                        RuntimeErrorKind::TypeMismatch,
+                        args.args[0].span(),
+                    )),
                 }
             }
             StringBuiltin::ToUppercase => {
@@ -1263,7 +1290,10 @@ impl<'a> Runtime<'a> {
                 let needle = self.eval_expr(args.args[0])?;
                 match needle {
                     Value::Str(n) => Ok(Value::Number(StringBuiltin::find(s, &n))),
-                    _ => unreachable!("Semantic analysis guarantees string arg"),
+                    _ => Err(RuntimeError::new(
+                        RuntimeErrorKind::TypeMismatch,
+                        args.args[0].span(),
+                    )),
                 }
             }
             StringBuiltin::Replace => {
@@ -1274,7 +1304,10 @@ impl<'a> Runtime<'a> {
                         let result = StringBuiltin::replace(s, &o, &n, self.frame);
                         Ok(Value::Str(ArenaCow::Owned(result)))
                     }
-                    _ => unreachable!("Semantic analysis guarantees string args"),
+                    _ => Err(RuntimeError::new(
+                        RuntimeErrorKind::TypeMismatch,
+                        args.args[0].span(),
+                    )),
                 }
             }
             StringBuiltin::ToNumber => Ok(Value::Number(StringBuiltin::to_number(s))),
@@ -1288,7 +1321,10 @@ impl<'a> Runtime<'a> {
                             .for_each(|s| collection.push(Value::Str(ArenaCow::Owned(s))));
                         Ok(Value::Array(collection))
                     }
-                    _ => unreachable!("Semantic analysis guarantees string arg"),
+                    _ => Err(RuntimeError::new(
+                        RuntimeErrorKind::TypeMismatch,
+                        args.args[0].span(),
+                    )),
                 }
             }
         }
